@@ -22,14 +22,15 @@
               that the fuel [S (length input)] used here is never exhausted)
 
    The model is of the code *after* the commits
-     "fix: unified diff encoding dropped the trailing whitespace of every line"
+     fb84ac3 "fix: unified diff encoding dropped the trailing whitespace of every line"
        (Modification::encode and Hunk::encode used `trim_end()`; they now remove
         only the line terminator)
-     "fix: HunkHeader::decode kept the line terminator in the header text"
+     0f4dc25 "fix: HunkHeader::decode kept the line terminator in the header text"
        (so that decode (encode h) <> h for every header).
-   The encoder as found is kept as [encode_modif_orig] / [encode_hunk_orig] and the
-   header decoder as found as [decode_header_orig]; DiffProofs.v proves that they do
-   not round-trip, with the witnesses that were replayed on the real code.
+   The encoder as found is kept as [encode_modif_orig] / [encode_hunk_orig] (with
+   [trim_end], itself compared with Rust's `str::trim_end` on every run) and the
+   header decoder as found as [decode_header_orig]; DiffProofs.v proves that they
+   do not round-trip, with the witnesses that were replayed on the real code.
 
    Scope.  Strings are byte lists (list N, every value < 256 in the harness).
    The Rust code works on `String`/`str`: `read_line` fails on invalid UTF-8 and the
